@@ -23,7 +23,9 @@ class CC:
 
     def make(self, kind):
         b = self.beta
-        return spaces.model_class(kind)(mu=6 * b, sigma=2 * b, beta=b, kappa=self.kappa, tau=self.tau)
+        m = spaces.model_class(kind)(mu=6 * b, sigma=2 * b, beta=b, kappa=self.kappa, tau=self.tau)
+        spaces.decoy_model(kind)
+        return m
 
 
 def configs(ctx, big=False):
